@@ -323,6 +323,15 @@ impl FieldParser {
         i: &[u8],
         template: T,
     ) -> IResult<&[u8], Vec<BTreeMap<usize, IPFixFieldPair>>> {
+        // Smallest possible record: a variable-length field takes at least its length octet.
+        let min_record_len: usize = template
+            .get_fields()
+            .iter()
+            .map(|f| match f.field_length {
+                65535 => 1,
+                length => usize::from(length),
+            })
+            .sum();
         let mut fields = vec![];
         let mut remaining = i;
         loop {
@@ -334,9 +343,11 @@ impl FieldParser {
                 fields.push(data_field);
                 remaining = i;
             }
-            // Another record follows only if at least as many bytes are left as this one took.
+            // Another record follows if a smallest record still fits (RFC 7011 3.3.1: padding is
+            // shorter than any allowable record). The size of the record just read says nothing
+            // about the next one when the template has variable-length fields.
             let taken = before.saturating_sub(remaining.len());
-            if taken == 0 || remaining.len() < taken {
+            if taken == 0 || remaining.len() < min_record_len.max(1) {
                 break;
             }
         }
